@@ -99,6 +99,17 @@ const DET: &[&str] = &[
     "det:missing-name-unpaired",
     "det:placed-unmapped-no-bases",
     "det:pair-plus-supplementary-in-slice",
+    // rich record <-> minimal record adjacency inside slices and across slice / container boundaries
+    "det:rich-minimal:production-layout",
+    "det:rich-minimal:rps1x1",
+    "det:rich-minimal:rps1x3",
+    "det:rich-minimal:rps2x1",
+    "det:rich-minimal:rps2x2",
+    "det:rich-minimal:rps3x2",
+    // the same with unplaced records only (the writer rejects containers whose slices mix contexts)
+    "det:rich-minimal-unplaced:rps1x3",
+    "det:rich-minimal-unplaced:rps2x2",
+    "det:rich-minimal-unplaced:rps3x2",
 ];
 
 fn det_stream(name: &str) -> (Stream, Option<(usize, usize)>) {
@@ -154,11 +165,70 @@ fn det_stream(name: &str) -> (Stream, Option<(usize, usize)>) {
             rd("p0", F_PAIRED | F_LAST | 16, Some(0), Some(21), &[('M', 8)], b"CGGATCAG", &q(8)),
             rd("p0", F_PAIRED | F_FIRST | gencram::F_SUPPLEMENTARY, Some(0), Some(40), &[('H', 8), ('M', 6)], b"GACTAG", &q(6)),
         ],
+        n if n.starts_with("det:rich-minimal-unplaced:") => {
+            layout = match &n["det:rich-minimal-unplaced:".len()..] {
+                "rps1x3" => Some((1, 3)),
+                "rps2x2" => Some((2, 2)),
+                _ => Some((3, 2)),
+            };
+            let mut v = Vec::new();
+            for k in 0..7u8 {
+                let mut r = rd(&format!("rich-unmapped-{k}"), F_UNMAPPED, None, None, &[], &b"GGGGNTTTTAACCGT"[..(5 + k as usize)], &vec![5 + k; 5 + k as usize]);
+                r.tags = vec![(*b"RG", Aux::Z(b"rg0".to_vec())), (*b"XA", Aux::A(b'a' + k)), (*b"XB", Aux::BI16(vec![-1, 2, k as i16])), (*b"XZ", Aux::Z(b"some text".to_vec()))];
+                v.push(r);
+                if k % 3 != 2 {
+                    v.push(gencram::minimal_read());
+                }
+                if k % 3 == 1 {
+                    v.push(gencram::minimal_read());
+                }
+            }
+            v
+        }
+        n if n.starts_with("det:rich-minimal:") => {
+            layout = match &n["det:rich-minimal:".len()..] {
+                "rps1x1" => Some((1, 1)),
+                "rps1x3" => Some((1, 3)),
+                "rps2x1" => Some((2, 1)),
+                "rps2x2" => Some((2, 2)),
+                "rps3x2" => Some((3, 2)),
+                _ => None,
+            };
+            let rich_tags = |k: u8| -> Vec<([u8; 2], Aux)> {
+                vec![
+                    (*b"RG", Aux::Z(b"rg0".to_vec())),
+                    (*b"NM", Aux::U8(k)),
+                    (*b"MD", Aux::Z(b"8".to_vec())),
+                    (*b"XA", Aux::A(b'a' + k)),
+                    (*b"XB", Aux::BI16(vec![-1, 2, k as i16])),
+                    (*b"XF", Aux::F(0x4049_0fdb)),
+                    (*b"XH", Aux::H(b"1AE3".to_vec())),
+                    (*b"XZ", Aux::Z(b"some text".to_vec())),
+                ]
+            };
+            let mut v = vec![
+                rd("rich-pair", F_PAIRED | F_FIRST, Some(0), Some(1), &[('S', 2), ('M', 6)], b"TTACGTAC", &[10, 11, 12, 13, 14, 15, 16, 17]),
+                gencram::minimal_read(),
+                rd("rich-pair", F_PAIRED | F_LAST | 16, Some(0), Some(21), &[('M', 4), ('I', 1), ('M', 3)], b"CGGAGTCA", &[20, 21, 22, 23, 24, 25, 26, 27]),
+                gencram::minimal_read(),
+                gencram::minimal_read(),
+                rd("rich-single", 0, Some(1), Some(3), &[('M', 8)], b"GACGTTCG", &[30, 31, 32, 33, 34, 35, 36, 37]),
+                rd("rich-unmapped", F_UNMAPPED, None, None, &[], b"GGGGNTTTTAA", &[5; 11]),
+                gencram::minimal_read(),
+                rd("rich-last", 16, Some(1), Some(30), &[('M', 8)], b"GGGCATAC", &[40, 41, 42, 43, 44, 45, 46, 47]),
+            ];
+            for (k, r) in v.iter_mut().enumerate() {
+                if !r.is_minimal() {
+                    r.tags = rich_tags(k as u8);
+                }
+            }
+            v
+        }
         "det:placed-unmapped-no-bases" => vec![rd("r0", F_UNMAPPED, Some(0), Some(24), &[], b"", b"")],
         _ => panic!("unknown deterministic case {name}"),
     };
     for (i, r) in reads.iter_mut().enumerate() {
-        r.template = if r.name.as_deref() == Some(b"p0") { 1000 } else { i };
+        r.template = if r.name.as_deref() == Some(b"p0") || r.name.as_deref() == Some(b"rich-pair") { 1000 } else { i };
     }
     gencram::finalize_mates(&mut reads);
     if name == "det:pair-plus-supplementary-in-slice" {
@@ -233,19 +303,46 @@ fn gen_cases(ctx: &Ctx) -> Vec<Case> {
         o.pm_mates_adjacent = *rng.pick(&[0, 400, 1000]);
         o.n_read_groups = rng.urange(0, 3);
         o.pm_tags = *rng.pick(&[0, 500, 900]);
-        match rng.below(100) {
-            0..=4 => o.pm_noqual = 300,
-            5..=7 => {
-                o.pm_nobases_unmapped = 600;
-                o.pm_unmapped_single = 500;
+        // Shapes that used to be confined to a few files while the writer defects were open are
+        // ordinary members of the model now (independent draws; their hand-made witnesses stay in
+        // the deterministic corpus as regression cases).
+        if rng.chance(1, 4) {
+            o.pm_noqual = *rng.pick(&[50, 300]);
+        }
+        if rng.chance(3, 20) {
+            o.pm_nobases_unmapped = *rng.pick(&[200, 600]);
+            o.pm_unmapped_single = o.pm_unmapped_single.max(300);
+        }
+        if rng.chance(3, 20) {
+            o.pm_noname = *rng.pick(&[100, 300]);
+        }
+        if rng.chance(3, 10) {
+            o.pm_supp_of_pair = *rng.pick(&[200, 600]);
+        }
+        if rng.chance(1, 4) {
+            // rich -> minimal -> rich adjacency for stale-state observation
+            o.pm_minimal = *rng.pick(&[100, 400]);
+            o.alternate_minimal = rng.bool();
+            if rng.bool() {
+                o.pm_tags = 1000;
             }
-            8..=9 => o.pm_nobases_mapped = 200,
-            10..=11 => o.pm_noname = 300,
-            _ => {}
+            if rng.chance(1, 2) {
+                // only unplaced records (rich unmapped reads + minimal ones): the one mix of rich and
+                // minimal *slices* that the writer accepts inside a multi-slice container
+                o.pm_pair = 0;
+                o.pm_unmapped_single = 1000;
+                o.pm_place_unmapped = 0;
+            }
+        }
+        // (a mapped record with CIGAR but without bases still makes the writer panic: kept rare)
+        if rng.chance(1, 50) {
+            o.pm_nobases_mapped = 200;
         }
         let layout = match rng.below(20) {
             0..=2 => None,
-            3..=10 => Some((rng.urange(1, 30), 1)),
+            // slices of 1-3 records: every boundary kind falls between a rich and a minimal record
+            3..=5 => Some((rng.urange(1, 3), rng.urange(1, 3))),
+            6..=11 => Some((rng.urange(1, 30), 1)),
             _ => Some((rng.urange(1, 20), rng.urange(2, 4))),
         };
         let emap = if i % 2 == 0 { emaps[(i / 2) as usize % emaps.len()].clone() } else { rng.pick(&emaps).clone() };
@@ -360,6 +457,134 @@ fn read_back(bytes: &[u8], s: &Stream) -> Result<Vec<RecordBuf>, (String, String
         Err(p) => Err(("panic".into(), p.sig)),
         Ok(x) => x,
     }
+}
+
+/// The named fields of a record rendered for comparison (floats bit by bit through `Aux`).
+fn fields(r: &RecordBuf) -> Vec<(&'static str, String)> {
+    vec![
+        ("name", format!("{:?}", r.name().map(|n| n.to_vec()))),
+        ("flags", format!("{:#x}", u16::from(r.flags()))),
+        ("reference", format!("{:?}", r.reference_sequence_id())),
+        ("position", format!("{:?}", r.alignment_start().map(usize::from))),
+        ("mapping-quality", format!("{:?}", r.mapping_quality().map(u8::from))),
+        ("cigar", fmt_cigar(&cigar_of(r))),
+        ("mate-reference", format!("{:?}", r.mate_reference_sequence_id())),
+        ("mate-position", format!("{:?}", r.mate_alignment_start().map(usize::from))),
+        ("template-length", r.template_length().to_string()),
+        ("bases", String::from_utf8_lossy(r.sequence().as_ref()).to_string()),
+        ("quality-scores", format!("{:?}", AsRef::<[u8]>::as_ref(r.quality_scores()))),
+        ("tags", format!("{:?}", r.data().iter().map(|(t, v)| (t.as_ref().to_vec(), Aux::from_value(v))).collect::<Vec<_>>())),
+    ]
+}
+
+/// Reads the file the way applications do: ONE reader and ONE of each reusable object for the
+/// whole file, through every iteration API the sync reader offers, re-positioned on the same
+/// reader in between. Returns the record list of each path:
+/// * `container-slices-lazy-records-into-reused-record-buf`: `read_container` into one reused
+///   `Container` -> `slices()` -> `decode_blocks` -> `Slice::records` (lazy `cram::Record`s) ->
+///   `RecordBuf::try_clone_from_alignment_record` into one reused target;
+/// * `records-second-pass`: `records(&header)` on the same reader after seeking back;
+/// * `alignment-records-into-reused-record-buf`: the `sam::alignment::io::Read` trait objects cloned
+///   into the same reused target;
+/// * `records-after-abandoned-iteration`: `records(&header)` consumed half-way, dropped, reader
+///   sought back, full iteration.
+fn read_back_reused(bytes: &[u8], s: &Stream) -> Result<Vec<(&'static str, Vec<RecordBuf>)>, (String, String)> {
+    use std::io::{Cursor, SeekFrom};
+
+    use sam::alignment::io::Read as _;
+    let repo = s.repository();
+    let r = guard::catch(|| -> Result<Vec<(&'static str, Vec<RecordBuf>)>, (String, String)> {
+        let e = |stage: &'static str| move |e: std::io::Error| (stage.to_string(), e.to_string());
+        let mut reader = cram::io::reader::Builder::default()
+            .set_reference_sequence_repository(repo.clone())
+            .build_from_reader(Cursor::new(bytes));
+        let header = reader.read_header().map_err(e("header"))?;
+        let start = reader.position().map_err(e("position"))?;
+        let mut paths = Vec::new();
+
+        let mut container = cram::io::reader::Container::default();
+        let mut target = RecordBuf::default();
+        let mut out = Vec::new();
+        while reader.read_container(&mut container).map_err(e("read_container"))? != 0 {
+            let ch = container.compression_header().map_err(e("compression_header"))?;
+            for slice in container.slices() {
+                let slice = slice.map_err(e("slices"))?;
+                let (core, ext) = slice.decode_blocks().map_err(e("decode_blocks"))?;
+                let records = slice.records(repo.clone(), &header, &ch, &core, &ext).map_err(e("slice-records"))?;
+                for r in &records {
+                    target.try_clone_from_alignment_record(&header, r).map_err(e("try_clone_from_alignment_record"))?;
+                    out.push(target.clone());
+                }
+            }
+        }
+        paths.push(("container-slices-lazy-records-into-reused-record-buf", out));
+
+        reader.seek(SeekFrom::Start(start)).map_err(e("seek"))?;
+        let second: Vec<RecordBuf> = reader.records(&header).collect::<std::io::Result<_>>().map_err(e("records-second-pass"))?;
+        let n = second.len();
+        paths.push(("records-second-pass", second));
+
+        reader.seek(SeekFrom::Start(start)).map_err(e("seek"))?;
+        let mut out = Vec::new();
+        for r in reader.alignment_records(&header) {
+            let r = r.map_err(e("alignment_records"))?;
+            target.try_clone_from_alignment_record(&header, &*r).map_err(e("try_clone_from_alignment_record"))?;
+            out.push(target.clone());
+        }
+        paths.push(("alignment-records-into-reused-record-buf", out));
+
+        reader.seek(SeekFrom::Start(start)).map_err(e("seek"))?;
+        {
+            let mut it = reader.records(&header);
+            for _ in 0..n / 2 {
+                if let Some(r) = it.next() {
+                    r.map_err(e("records-abandoned"))?;
+                }
+            }
+        }
+        reader.seek(SeekFrom::Start(start)).map_err(e("seek"))?;
+        let again: Vec<RecordBuf> = reader.records(&header).collect::<std::io::Result<_>>().map_err(e("records-after-abandoned-iteration"))?;
+        paths.push(("records-after-abandoned-iteration", again));
+        Ok(paths)
+    });
+    match r {
+        Err(p) => Err(("panic".into(), p.sig)),
+        Ok(x) => x,
+    }
+}
+
+/// Every reuse path must deliver exactly what the fresh single pass delivered.
+fn compare_reused(s: &Stream, fresh: &[RecordBuf], bytes: &[u8]) -> Vec<(String, String)> {
+    let mut out = Vec::new();
+    match read_back_reused(bytes, s) {
+        Err((stage, why)) => {
+            let sig = if stage == "panic" { format!("reader-reuse:panic:{why}") } else { format!("reader-reuse:fails:{stage}:{}", classify_error(&why)) };
+            out.push((sig, format!("the file reads back through a fresh records() pass but reading it with one reused reader fails in {stage}: {why}")));
+        }
+        Ok(paths) => {
+            for (path, got) in paths {
+                if got.len() != fresh.len() {
+                    out.push((format!("reader-reuse:{path}:record-count"), format!("{} records through {path}, {} through a fresh records() pass", got.len(), fresh.len())));
+                    continue;
+                }
+                for (i, (a, b)) in fresh.iter().zip(&got).enumerate() {
+                    let (fa, fb) = (fields(a), fields(b));
+                    if let Some(k) = fa.iter().zip(&fb).position(|(x, y)| x != y) {
+                        // what the previous record looked like decides whether stale state is the explanation
+                        let prev = if i == 0 { "first-record" } else if s.reads[i - 1].is_minimal() { "after-minimal-record" } else { "after-rich-record" };
+                        let this = if s.reads[i].is_minimal() { "minimal-record" } else { "rich-record" };
+                        out.push((
+                            format!("reader-reuse:{path}:{}-differs-from-fresh-read:{this}:{prev}", fa[k].0),
+                            format!("record #{i} through {path}: {} = {} but a fresh records() pass gave {}; written: {}; previous record: {}", fa[k].0, fb[k].1, fa[k].1,
+                                    s.reads[i].sam_line(&s.refs), if i > 0 { s.reads[i - 1].sam_line(&s.refs) } else { "-".into() }),
+                        ));
+                        break;
+                    }
+                }
+            }
+        }
+    }
+    out
 }
 
 fn cigar_of(r: &RecordBuf) -> Vec<(char, usize)> {
@@ -540,7 +765,9 @@ fn compare(c: &Case, s: &Stream, got: &[RecordBuf]) -> Cmp {
                 push(&mut out, "roundtrip:regenerated-name:missing".into(), format!("record #{i} came back without a name (preserve_read_names=false); written: {}", w.sam_line(&s.refs)));
                 continue;
             };
-            if w.name.is_none() {
+            // (only the primary segments are required to keep pairing up: a supplementary or
+            // secondary record is stored detached with its own name)
+            if w.name.is_none() || w.flags & (gencram::F_SECONDARY | gencram::F_SUPPLEMENTARY) != 0 {
                 continue;
             }
             match name_of_template.get(&w.template) {
@@ -573,7 +800,10 @@ fn evaluate(c: &Case, s: &Stream, bytes: &[u8]) -> (Vec<(String, String)>, u64) 
             (vec![(sig, format!("the writer returned Ok ({} records, {} bytes) but reading the file back fails in {stage}: {why}", s.reads.len(), bytes.len()))], 0)
         }
         Ok(got) => {
-            let cmp = compare(c, s, &got);
+            let mut cmp = compare(c, s, &got);
+            if got.len() == s.reads.len() {
+                cmp.violations.extend(compare_reused(s, &got, bytes));
+            }
             (cmp.violations, cmp.compared)
         }
     }
@@ -802,8 +1032,28 @@ fn run_case(ctx: &Ctx, idx: u64, c: &Case) -> CaseOut {
             }
         }
     }
+    // rich <-> minimal adjacency, by the kind of boundary between the two records
+    for i in 1..s.reads.len() {
+        let (a, b) = (&s.reads[i - 1], &s.reads[i]);
+        if a.is_minimal() == b.is_minimal() {
+            continue;
+        }
+        let dir = if b.is_minimal() { "rich->minimal" } else { "minimal->rich" };
+        let (sa, sb) = (c.slice_of(i - 1), c.slice_of(i));
+        let boundary = if sa == sb { "inside-slice" } else if sa.0 == sb.0 { "across-slices" } else { "across-containers" };
+        o.count(&format!("adjacent[{dir}:{boundary}]"), 1);
+    }
     let mut pair_mask = 0u32;
     for (i, r) in s.reads.iter().enumerate() {
+        if r.is_minimal() {
+            o.count("records_minimal", 1);
+        }
+        if r.is_paired() && r.flags & gencram::F_SUPPLEMENTARY != 0 {
+            o.count("records_supplementary_segment_of_a_pair", 1);
+        }
+        if r.name.is_none() {
+            o.count("records_without_name", 1);
+        }
         if r.mate.is_some() {
             let pc = pair_class(c, &s, i);
             pair_mask |= 1 << (fnv1a(pc.as_bytes()) % 16);
@@ -867,6 +1117,8 @@ fn main() {
         "mapped records always carry a CIGAR whose read length equals the number of bases; fqzcomp is only assigned to the quality-score series and the name tokenizer only to the read-name series",
         "a failed round trip is attributed to a block codec (signature block-codec-not-invertible:<family>) only when encode+decode of the assigned encoder, run through the H2 wrappers on the raw series block of an uncompressed twin of the file, is not the identity AND the twin does not show the symptom; codec invertibility itself is C08's property",
         "signatures of symptoms that a stream class of the generator explains (record without qualities, unmapped record without bases, placed unmapped record without bases, nameless record, supplementary segment of a pair) carry that class; all other symptoms keep their plain signature",
+        "every file that reads back is read again with ONE reader through every iteration API (read_container into one reused Container -> slices -> lazy cram::Record -> try_clone_from_alignment_record into one reused RecordBuf; records() second pass; alignment_records() trait objects into the reused RecordBuf; records() abandoned half-way and restarted after a seek); each path must deliver exactly the records of the fresh pass (names of nameless records included); rich and minimal records are made adjacent inside slices and across slice/container boundaries (counters adjacent[...])",
+        "with preserve_read_names=false only the primary segments of a template are required to share their regenerated name (supplementary/secondary records are stored detached with their own name)",
         "a writer call that returns Err or panics is counted (writer_rejected / writer_panics) and is not a violation; TLEN of generated pairs follows SAMv1 1.4.9 (leftmost..rightmost mapped base, + for the leftmost segment, first in file on ties, 0 across references or with an unmapped segment)",
     ] {
         rep.assumptions.push(a.into());
@@ -882,6 +1134,13 @@ fn main() {
         rep.floor("slices_multi_reference", g("slices_multi_reference"), 5);
         rep.floor("files_with_several_containers", g("files_with_several_containers"), 20);
         rep.floor("files_with_several_slices_in_a_container", g("files_with_several_slices_in_a_container"), 20);
+        for k in ["adjacent[rich->minimal:inside-slice]", "adjacent[minimal->rich:inside-slice]", "adjacent[rich->minimal:across-slices]", "adjacent[minimal->rich:across-slices]",
+                  "adjacent[rich->minimal:across-containers]", "adjacent[minimal->rich:across-containers]"] {
+            rep.floor(k, g(k), if k.contains("across-slices") { 8 } else { 20 });
+        }
+        rep.floor("records_supplementary_segment_of_a_pair", g("records_supplementary_segment_of_a_pair"), 50);
+        rep.floor("records_without_qualities", g("records_without_qualities"), 100);
+        rep.floor("records_without_name", g("records_without_name"), 100);
     }
     rep.finish(&ctx);
 }
